@@ -15,7 +15,8 @@ ET = gtirb.Edge.Type
 ENC = {"nop": b"\x90", "jmp": b"\xe9\0\0\0\0", "jcc": b"\x0f\x85\0\0\0\0", "call": b"\xe8\0\0\0\0", "ret": b"\xc3", "nop2": b"\x66\x90"}
 SYMOFF = {"jmp": 1, "jcc": 2, "call": 1}
 PATCHES = ["nop", "nop\nnop", "xchg %ax, %ax", "jmp {L}", "ret", "call {L}", "jne {L}\nnop", "nop\n.Lt:\nnop\njmp .Lt", "nop\ncall {L}\nnop",
-           "nop\nret\nnop", "jne {L}"]
+           "nop\nret\nnop", "jne {L}", ".Ls:\ndec %eax\njne .Ls", "jmp .Le\n.string \"hi\"\n.Le:\nnop", ".Lq:\nnop", "call {L}\nxchg %ax, %ax",
+           "nop\n.Lm:\njne .Lm\nret"]
 DATA_PATCH = [b"\x01", b"\x02\x03", b"\x04\x05\x06\x07"]
 
 
@@ -23,8 +24,10 @@ class Case:
     """A module description (pure data), independent of gtirb objects, so that it can be rebuilt identically."""
 
     def __init__(self, rnd, nfun_max=2, with_data=True, with_aux=True, with_cfi=True, mods="ins,del,rep", with_funcs=True, max_mods=3,
-                 closed_tail=False, to_proxy=True):
+                 closed_tail=False, to_proxy=True, with_lead=False):
         self.rnd = rnd
+        # bytes in front of the first block that belong to no block (the interval starts at 0x1000 - lead, the blocks at 0x1000)
+        self.lead = rnd.choice((1, 2, 5)) if with_lead and rnd.random() < 0.12 else 0
         nfun = rnd.randint(0 if with_funcs else 0, nfun_max) if with_funcs else 0
         self.blocks = []          # dicts: kind 'c'/'d', insns [(kind,target)], data bytes, func index or None, labels
         nblocks_total = 0
@@ -129,7 +132,7 @@ class Case:
                     patch = rnd.choice(PATCHES).replace("{L}", f"L{rnd.choice(code_idx)}")
                 else:
                     patch = rnd.choice(DATA_PATCH)
-                whole = t == "del" and off == 0 and ln == self.size(i) and x["kind"] == "c"
+                whole = t == "del" and off == 0 and ln == self.size(i)
                 self.mods.append((i, t, off, ln, None if t == "del" else patch, whole and to_proxy and rnd.random() < 0.4))
 
     # ---- explicit form (corpus entries do not depend on the generator)
@@ -144,7 +147,7 @@ class Case:
             if isinstance(v, dict):
                 return {"dict": [[enc(k), enc(x)] for k, x in v.items()]}
             return v
-        return {k: enc(getattr(self, k)) for k in ("blocks", "nfun", "extra_start", "end_labels", "aux", "align", "cfi", "entry", "mods")}
+        return {k: enc(getattr(self, k)) for k in ("blocks", "nfun", "extra_start", "end_labels", "aux", "align", "cfi", "entry", "mods", "lead")}
 
     @classmethod
     def from_json(cls, d):
@@ -159,6 +162,7 @@ class Case:
                 return [dec(x) for x in v]
             return v
         c = cls.__new__(cls)
+        c.lead = 0
         for k, v in d.items():
             setattr(c, k, dec(v))
         c.blocks = [{kk: ([tuple(i) for i in vv] if kk == "ins" else vv) for kk, vv in b.items()} for b in c.blocks]
@@ -206,7 +210,10 @@ def build(case):
     from helpers import add_function_object
     B = Built()
     ir, m = create_test_module(gtirb.Module.FileFormat.ELF, gtirb.Module.ISA.X64)
-    _, bi = add_text_section(m, address=0x1000)
+    _, bi = add_text_section(m, address=0x1000 - case.lead)
+    if case.lead:
+        bi.contents = b"\xcc" * case.lead
+        bi.size = case.lead
     layout = case.blocks
     syms = [add_symbol(m, f"L{i}") for i in range(len(layout))]
     gbs = []
@@ -275,7 +282,7 @@ def build(case):
                 add_edge(ir.cfg, gbs[i], add_proxy_block(m), ET.Return)
     for (t, key, d, v) in case.aux:
         elem = bi if key == "bi" else gbs[key]
-        base = 0
+        base = case.lead if key == "bi" else 0
         val = f"c{v}" if t == 0 else v
         m.aux_data[TABLES[t]].data[gtirb.Offset(elem, d + base)] = val
     for i, a in case.align.items():
